@@ -34,6 +34,10 @@ CHECKS = {
              text="Pure functions: TLC enumerates the input boxes (lengths around the 32-byte boundaries, spare capacity, high bytes, all chunkings of reads) and, as trace validator, recomputes each expectation in TLA+; seeded random inputs up to 4096 bytes are judged the same way. Exploration level: no state machine worth model checking.", ref="§3 C19"),
  "C20": dict(engine="seqio", technique="TLA+ reference models (IoSeek, IoSizer, IoCloser, IoProxy, Unique; SeqioP step function) checked by TLC: observed = expected after every call of TLC-enumerated and random call sequences replayed on the real helpers; Close-vs-Read and the proxy pumps under the controller",
              text="Reference-model conformance on every operation history: all call sequences up to length 2-3 over small argument domains enumerated by TLC plus seeded random ones, each replayed on the real object with the result compared by TLC; iocloser Close/Read interleavings and ioproxy pumps are stepped by the controller.", ref="§3 C20"),
+ "C03": dict(engine="broadcast", technique="TLA+ monitor BroadcastP (handle open/closed against broadcast epochs, Wait result rules, Stuck at quiescence) checked by TLC on Broadcast.tla (explicit channel identities; justifies the none/cur/closed abstraction of all other specs) and on traces of the real Broadcast under TLC edge-cover + random schedules with channel probes after every step",
+             text="Every handle obtained inside a critical section is probed after each controller step and must be open until, and closed after, the first broadcast of a later section; Wait results are judged against logged predicate evaluations; no waiter is blocked at an exact quiescent point while its predicate holds. TLC checks the same on Broadcast.tla for every interleaving of 3-5 clients.", ref="§3 C03"),
+ "C15": dict(engine="ccontainer", technique="TLA+ monitor CContainerP (cell history with custom-equality classes, waiter conditions, Stuck) checked by TLC on CContainer.tla and on traces of the real CContainer under TLC edge-cover + random schedules",
+             text="Swap callbacks see the current cell value (linearisation at the callback), waiter results lie in the cell's history since the call and satisfy the condition, error returns only if the source fired, no waiter blocked at quiescence while satisfied; checked by TLC on the X spec and on controlled executions with writers, four waiter kinds, custom equality, cancellations and error-channel deliveries.", ref="§3 C15"),
 }
 NOT_YET = "not built yet in this session (work in progress; see DESIGN.md §6 build order)"
 
@@ -65,6 +69,8 @@ m = {
    {"name": "keyed", "path": "tools/fam_keyed.py", "serves_properties": ["C06", "C07"], "kind_free_text": "TLC model checking of specs/keyed + sequential-history and controlled replay/trace validation (harness/drivers/keyed.go)"},
    {"name": "codec", "path": "tools/fam_codec.py", "serves_properties": ["C19"], "kind_free_text": "TLC-enumerated input vectors + TLA+ expectation oracle (harness/drivers/codec.go)"},
    {"name": "seqio", "path": "tools/fam_seqio.py", "serves_properties": ["C20"], "kind_free_text": "TLA+ reference models for the sequential helpers (harness/drivers/seqio.go)"},
+   {"name": "broadcast", "path": "tools/fam_broadcast.py", "serves_properties": ["C03"], "kind_free_text": "TLC model checking of specs/broadcast + controlled replay/trace validation (harness/drivers/broadcast.go)"},
+   {"name": "ccontainer", "path": "tools/fam_ccontainer.py", "serves_properties": ["C15"], "kind_free_text": "TLC model checking of specs/ccontainer + controlled replay/trace validation (harness/drivers/ccontainer.go)"},
    {"name": "race", "path": "tools/fam_race.py", "serves_properties": ["C13"], "kind_free_text": "free-running client programs under the Go race detector (harness/race_test.go)"},
    {"name": "routine", "path": "tools/fam_routine.py", "serves_properties": ["C04", "C05", "C14"], "kind_free_text": "TLC model checking of specs/routine + controlled replay/trace validation (harness/drivers/routine.go)"},
  ],
